@@ -1115,6 +1115,11 @@ func loopKeys(l *mapLoop) map[ssa.Value]bool {
 				if l.kind == "MapRange" && core.StaticCalleeName(&x.Call) == "(*reflect.MapIter).Key" && x.Call.Args[0] == l.mapVal {
 					keys[x] = true
 				}
+			case *ssa.UnOp:
+				// an element of the slice that MapKeys() handed out
+				if ia, ok := x.X.(*ssa.IndexAddr); ok && x.Op == token.MUL && l.kind == "MapKeys" && ia.X == l.mapVal {
+					keys[x] = true
+				}
 			}
 		}
 	}
@@ -1338,6 +1343,17 @@ func (c *Ctx) checkConvertedKeyInsert(rule string, m *core.Module, l *mapLoop, b
 				for _, a := range x.Call.Args {
 					if keys[a] {
 						return true
+					}
+					// ... or what an accessor made of the loop key (`convert(key.Interface())`)
+					if mi, isMI := a.(*ssa.MakeInterface); isMI {
+						a = mi.X
+					}
+					if inner, isCall := a.(*ssa.Call); isCall {
+						for _, ia := range inner.Call.Args {
+							if keys[ia] {
+								return true
+							}
+						}
 					}
 				}
 				return false
